@@ -70,7 +70,7 @@ Theorem analysis_reads_only_declared fam cfg c c' t t' :
 Proof.
   intros Hc Ht. pose proof (agree_add _ _ _ _ _ Hc Ht) as Htot.
   destruct (cfg_cols_in cfg) as (I1 & I2 & I3 & I4).
-  unfold rom_analyze_aggregates, agg_with_zero_div, rom_covariate_coef, rom_covariate_cov, rom_metric_mean, rom_metric_var,
+  unfold rom_analyze_aggregates, agg_with_zero_div, agg_wrap, rom_covariate_coef, rom_covariate_cov, rom_metric_mean, rom_metric_var,
     rom_covariate_cov.
   rewrite (ag_ratio_var _ _ _ Htot _ _ I3 I4), (ag_ratio_cov _ _ _ Htot _ _ _ _ I1 I2 I3 I4),
     (ag_mean _ _ _ Htot _ I3), (ag_mean _ _ _ Htot _ I4).
